@@ -130,7 +130,7 @@ def classify(args, p):
     return kind, mc
 
 
-def ladder_check(acc, mp, prop, fname, args, p, kwargs=None, budget=20, anchors=None, bound=BOUND):
+def ladder_check(acc, mp, prop, fname, args, p, kwargs=None, budget=20, anchors=None, bound=BOUND, must_return=False):
     """returns the top-rung value or None"""
     case = [prop, fname, list(args), p, kwargs or {}]
     t0 = time.time()
@@ -141,7 +141,12 @@ def ladder_check(acc, mp, prop, fname, args, p, kwargs=None, budget=20, anchors=
         acc.extra.setdefault('_timeouts', []).append([fname, core.jsonable(args), p])
         return None
     except (ValueError, ZeroDivisionError, NotImplementedError, OverflowError) as e:
-        acc.count('raised'); return None
+        acc.count('raised')
+        if must_return:
+            # the table entry declares every listed argument to be inside the domain (no pole, no branch point)
+            acc.evals += 1
+            acc.violation(case, '%s%s at prec %d raised %s (%s) at a regular point of the function' % (fname, show(args), p, type(e).__name__, str(e)[:50]), fn=fname, kind='raise-in-domain', args=show(args))
+        return None
     except mp.NoConvergence:
         acc.count('raised'); return None
     except Exception as e:
@@ -234,7 +239,7 @@ def run_table(prop, table, task):
     try:
         arglist = ent['args'](p)
         for args in arglist:
-            ladder_check(acc, mp, prop, ent['fn'], args, p, ent.get('kw'), ent.get('budget', 20), ent.get('anchors'), ent.get('bound', BOUND))
+            ladder_check(acc, mp, prop, ent['fn'], args, p, ent.get('kw'), ent.get('budget', 20), ent.get('anchors'), ent.get('bound', BOUND), ent.get('must_return', False))
         if arglist:
             acc.sample([ent['fn'], show(arglist[len(arglist) // 2]), p])
     finally:
